@@ -212,6 +212,20 @@ End WithOS.
 
 Definition init : state := mkState [] [] 0 None.
 
+(* may this edit (re)introduce the name x into network nn?  (used to state that a removed node stays gone) *)
+Definition smem (x : string) (l : list string) : bool := existsb (String.eqb x) l.
+Definition mentions (nn x : name) (o : op) : bool :=
+  match o with
+  | AddNode net y _ _ _ _ _ _ nb =>
+      String.eqb (defnet net) nn && (String.eqb y x || match nb with Some l => smem x l | None => false end)
+  | AddNetwork net xs tp =>
+      String.eqb (defnet net) nn
+      && (smem x xs || match tp with Some t => existsb (fun yl => smem x (snd yl)) t | None => false end)
+  | Reset => String.eqb nn "default" && smem x reset_names
+  | Read | Load => true
+  | RemoveNode _ _ | RemoveNetwork _ | Write => false
+  end.
+
 (* ---------------------------------------------------------------------------------------------- *)
 (* node ids: functions of the file content only                                                     *)
 (* ---------------------------------------------------------------------------------------------- *)
